@@ -1,4 +1,5 @@
-/-! scratch pilot: config.SetDefaults (config/config.go:85-123). Durations in nanoseconds as Int; `none` = nil pointer -/
+/-! `config.Config.SetDefaults` (config/config.go). Durations in nanoseconds as Int; `none` = nil pointer.
+The constants are named so that `Cfg/Defaults.lean` can tie them to the regenerated table `Generated.defaults`. -/
 namespace Cfg
 
 structure Config where
@@ -24,28 +25,49 @@ structure Config where
 
 def boolDefault (cur : Option Bool) (d : Bool) : Option Bool := match cur with | some b => some b | none => some d
 
-def minute : Int := 60 * 1000000000
-def hour : Int := 60 * minute
+abbrev minute : Int := 60 * 1000000000
+abbrev hour : Int := 60 * minute
+
+/-! the defaults -/
+abbrev dDeleteEnabled : Bool := false
+abbrev dPushEnabled : Bool := true
+abbrev dBlobDelete : Bool := false
+abbrev dReferrerEnabled : Bool := true
+abbrev dManifestLimit : Int := 1024 * 1024 * 8
+abbrev dPageCacheExpire : Int := 5 * minute
+abbrev dPageCacheLimit : Int := 1000
+abbrev dReferrerLimit : Int := 1024 * 1024 * 4
+abbrev dReadOnly : Bool := false
+abbrev dRootDir : String := "."
+abbrev dGcFrequency : Int := 15 * minute
+abbrev dGcGrace : Int := hour
+abbrev dRepoUploadMax : Int := 1000
+abbrev dGcUntagged : Bool := false
+abbrev dGcEmptyRepo : Bool := true
+abbrev dGcDangling : Bool := false
+abbrev dGcWithSubj : Bool := true
+/-- `config.StoreDir` -/
+abbrev storeDir : Nat := 2
 
 def setDefaults (c : Config) : Config :=
   { c with
-    deleteEnabled := boolDefault c.deleteEnabled false
-    pushEnabled := boolDefault c.pushEnabled true
-    blobDelete := boolDefault c.blobDelete false
-    referrerEnabled := boolDefault c.referrerEnabled true
-    manifestLimit := if c.manifestLimit ≤ 0 then 1024 * 1024 * 8 else c.manifestLimit
-    pageCacheExpire := if c.pageCacheExpire = 0 then 5 * minute else c.pageCacheExpire
-    pageCacheLimit := if c.pageCacheLimit = 0 then 1000 else c.pageCacheLimit
-    referrerLimit := if c.referrerLimit = 0 then 1024 * 1024 * 4 else c.referrerLimit
-    readOnly := boolDefault c.readOnly false
-    rootDir := if c.storeType = 2 ∧ c.rootDir = "" then "." else c.rootDir
-    gcFrequency := if c.gcFrequency = 0 then 15 * minute else c.gcFrequency
-    gcGrace := if c.gcGrace = 0 then hour else c.gcGrace
-    repoUploadMax := if c.repoUploadMax = 0 then 1000 else c.repoUploadMax
-    gcUntagged := boolDefault c.gcUntagged false
-    gcEmptyRepo := boolDefault c.gcEmptyRepo true
-    gcDangling := boolDefault c.gcDangling false
-    gcWithSubj := boolDefault c.gcWithSubj true }
+    deleteEnabled := boolDefault c.deleteEnabled dDeleteEnabled
+    pushEnabled := boolDefault c.pushEnabled dPushEnabled
+    blobDelete := boolDefault c.blobDelete dBlobDelete
+    referrerEnabled := boolDefault c.referrerEnabled dReferrerEnabled
+    manifestLimit := if c.manifestLimit ≤ 0 then dManifestLimit else c.manifestLimit
+    pageCacheExpire := if c.pageCacheExpire = 0 then dPageCacheExpire else c.pageCacheExpire
+    pageCacheLimit := if c.pageCacheLimit = 0 then dPageCacheLimit else c.pageCacheLimit
+    referrerLimit := if c.referrerLimit = 0 then dReferrerLimit else c.referrerLimit
+    readOnly := boolDefault c.readOnly dReadOnly
+    rootDir := if c.storeType = storeDir ∧ c.rootDir = "" then dRootDir else c.rootDir
+    gcFrequency := if c.gcFrequency = 0 then dGcFrequency else c.gcFrequency
+    gcGrace := if c.gcGrace = 0 then dGcGrace else c.gcGrace
+    repoUploadMax := if c.repoUploadMax = 0 then dRepoUploadMax else c.repoUploadMax
+    gcUntagged := boolDefault c.gcUntagged dGcUntagged
+    gcEmptyRepo := boolDefault c.gcEmptyRepo dGcEmptyRepo
+    gcDangling := boolDefault c.gcDangling dGcDangling
+    gcWithSubj := boolDefault c.gcWithSubj dGcWithSubj }
 
 /-- C19: defaulting is idempotent -/
 theorem setDefaults_idem (c : Config) : setDefaults (setDefaults c) = setDefaults c := by
@@ -56,8 +78,8 @@ theorem setDefaults_idem (c : Config) : setDefaults (setDefaults c) = setDefault
   case refine_11 =>
     rename_i rootDir _ _ _ _ _ _ _
     by_cases h : rootDir = ""
-    · simp [h]
-    · simp [h]
+    · simp [h, dRootDir, storeDir]
+    · simp [h, storeDir]
   all_goals first
     | trivial
     | rfl
@@ -89,4 +111,55 @@ theorem explicit_number_kept (c : Config) :
     (c.repoUploadMax ≠ 0 → (setDefaults c).repoUploadMax = c.repoUploadMax) := by
   unfold setDefaults
   refine ⟨?_, ?_, ?_, ?_, ?_⟩ <;> (intro h; simp only []; split <;> first | rfl | omega | (exfalso; omega) | simp_all)
+
+/-- C19: the two numeric cache settings not covered above, the root directory and the store type -/
+theorem explicit_other_kept (c : Config) :
+    (c.pageCacheExpire ≠ 0 → (setDefaults c).pageCacheExpire = c.pageCacheExpire) ∧
+    (c.pageCacheLimit ≠ 0 → (setDefaults c).pageCacheLimit = c.pageCacheLimit) ∧
+    (c.rootDir ≠ "" → (setDefaults c).rootDir = c.rootDir) ∧
+    (c.storeType ≠ storeDir → (setDefaults c).rootDir = c.rootDir) ∧
+    (setDefaults c).storeType = c.storeType := by
+  unfold setDefaults
+  refine ⟨?_, ?_, ?_, ?_, ?_⟩
+  · intro h; simp [h]
+  · intro h; simp [h]
+  · intro h; simp [h]
+  · intro h; simp [h]
+  · rfl
+
+/-- C19: an unset field (nil pointer, zero number, empty directory of a directory store) gets its default -/
+theorem unset_default (c : Config) :
+    (c.deleteEnabled = none → (setDefaults c).deleteEnabled = some dDeleteEnabled) ∧
+    (c.pushEnabled = none → (setDefaults c).pushEnabled = some dPushEnabled) ∧
+    (c.blobDelete = none → (setDefaults c).blobDelete = some dBlobDelete) ∧
+    (c.referrerEnabled = none → (setDefaults c).referrerEnabled = some dReferrerEnabled) ∧
+    (c.readOnly = none → (setDefaults c).readOnly = some dReadOnly) ∧
+    (c.gcUntagged = none → (setDefaults c).gcUntagged = some dGcUntagged) ∧
+    (c.gcEmptyRepo = none → (setDefaults c).gcEmptyRepo = some dGcEmptyRepo) ∧
+    (c.gcDangling = none → (setDefaults c).gcDangling = some dGcDangling) ∧
+    (c.gcWithSubj = none → (setDefaults c).gcWithSubj = some dGcWithSubj) ∧
+    (c.manifestLimit ≤ 0 → (setDefaults c).manifestLimit = dManifestLimit) ∧
+    (c.pageCacheExpire = 0 → (setDefaults c).pageCacheExpire = dPageCacheExpire) ∧
+    (c.pageCacheLimit = 0 → (setDefaults c).pageCacheLimit = dPageCacheLimit) ∧
+    (c.referrerLimit = 0 → (setDefaults c).referrerLimit = dReferrerLimit) ∧
+    (c.gcFrequency = 0 → (setDefaults c).gcFrequency = dGcFrequency) ∧
+    (c.gcGrace = 0 → (setDefaults c).gcGrace = dGcGrace) ∧
+    (c.repoUploadMax = 0 → (setDefaults c).repoUploadMax = dRepoUploadMax) ∧
+    (c.storeType = storeDir → c.rootDir = "" → (setDefaults c).rootDir = dRootDir) := by
+  unfold setDefaults boolDefault
+  refine ⟨?_, ?_, ?_, ?_, ?_, ?_, ?_, ?_, ?_, ?_, ?_, ?_, ?_, ?_, ?_, ?_, ?_⟩
+  case refine_17 => intro h h'; simp [h, h']
+  all_goals (intro h; simp [h])
+
+/-- after defaulting no switch is nil and no defaulted number is zero: `New` may dereference every pointer -/
+theorem defaults_total (c : Config) :
+    (setDefaults c).deleteEnabled ≠ none ∧ (setDefaults c).pushEnabled ≠ none ∧ (setDefaults c).blobDelete ≠ none ∧
+    (setDefaults c).referrerEnabled ≠ none ∧ (setDefaults c).readOnly ≠ none ∧ (setDefaults c).gcUntagged ≠ none ∧
+    (setDefaults c).gcEmptyRepo ≠ none ∧ (setDefaults c).gcDangling ≠ none ∧ (setDefaults c).gcWithSubj ≠ none ∧
+    0 < (setDefaults c).manifestLimit := by
+  unfold setDefaults boolDefault
+  refine ⟨?_, ?_, ?_, ?_, ?_, ?_, ?_, ?_, ?_, ?_⟩
+  all_goals first
+    | (simp only []; split <;> simp)
+    | (simp only [dManifestLimit]; split <;> omega)
 end Cfg
